@@ -924,6 +924,7 @@ func c16Flow(c *Ctx) {
 	// (no "already installed" shortcut that skips files)
 	ruleInstallWalksBeforeSuccess(c, "C16.6", install)
 	ruleDestinationNotInspected(c, "C16.10")
+	ruleRootPerMode(c, "C16.11")
 
 	// C16.7 nothing outside the installation directory is modified: the mutator-ownership rule of C15.3 (every filesystem
 	// mutator of the package takes the target directory, the temporary name or - Rename only - the destination) is also the
